@@ -1448,10 +1448,14 @@ class PredEval:
                     r = chr(av[1]) in av[0][1]
                 elif name.endswith("[T]>::contains") and len(av) == 2 and isinstance(av[0], tuple) and av[0][0] == "arr" and isinstance(av[1], int):
                     r = av[1] in av[0][1]
-                elif name in self.prog.fns and self.prog.fns[name].get("kind") == "Closure" and len(av) == 2 and isinstance(av[0], tuple) and av[0] \
-                        and av[0][0] == "closure" and isinstance(av[1], tuple) and av[1] and av[1][0] == "tuple":
+                elif name in self.prog.fns and self.prog.fns[name].get("kind") == "Closure" and len(av) == 2 \
+                        and isinstance(av[1], tuple) and av[1] and av[1][0] == "tuple":
                     # a call of a local closure (resolved to its body): environment = its captures, parameters = the argument tuple spread out
-                    r = self.call(name, [("tuple", av[0][2])] + list(av[1][1]), depth + 1)
+                    # (a closure reached through a capture of an unknown environment can still be run when it captures nothing itself)
+                    if isinstance(av[0], tuple) and av[0] and av[0][0] == "closure":
+                        r = self.call(name, [("tuple", av[0][2])] + list(av[1][1]), depth + 1)
+                    else:
+                        r = self.call(name, [("tuple", ())] + list(av[1][1]), depth + 1)
                 elif name in self.prog.fns and all(a is not None for a in av):
                     r = self.call(name, av, depth + 1)
                 elif (name.endswith("::eq") or name.endswith("::ne")) and len(av) == 2 and all(isinstance(a, (int, bool)) for a in av):
@@ -1671,6 +1675,9 @@ class PredEval:
                 if (el.get("n") == "Some") != (v[0] == "some"):
                     return None
                 v = ("tuple", (v[1],)) if v[0] == "some" else ("tuple", ())
+                continue
+            if isinstance(el, dict) and "f" in el and isinstance(v, tuple) and v and v[0] in ("env", "unknown"):
+                v = ("unknown",)        # a capture of an environment the caller did not supply: usable only where its value does not matter
                 continue
             return None
         return v
